@@ -1005,6 +1005,7 @@ def e3_run_case(project, history, seed, family="e3_gen", info=None, vary=True):
     with tempfile.TemporaryDirectory(prefix="verif-clean-e3-") as root:
         project.materialise(root)
         owned = {}            # path -> digest of what a step command last wrote
+        vol_written = set()   # paths whose file on disk was last written while the path was a VOLATILE output
         prev_graph = {}
         trace = []
         phases = [{"edits": []}] + history
@@ -1042,14 +1043,20 @@ def e3_run_case(project, history, seed, family="e3_gen", info=None, vary=True):
                 break
             graph = e3.parse_graph(res.graph)
             owned_after = dict(owned)
+            vol_before = sorted(vol_written)
             for c in res.commands:
                 for path, digest, _ in c["writes"]:
                     owned_after[path] = digest
+                    if _gstate(graph, path)[0] == "VOLATILE":
+                        vol_written.add(path)
+                    else:
+                        vol_written.discard(path)
+            vol_written &= set(res.files)
             trace[-1]["rc"] = res.returncode
             trace[-1]["executed"] = [c["label"] for c in res.commands]
             trace[-1]["removed"] = [e[1] for e in res.events if e[0] == "REMOVE"]
             records.append({"seed": seed, "family": family, "info": info, "phase": i, "kw": kw, "rc": res.returncode,
-                            "tampered": tampered,
+                            "tampered": tampered, "written_as_volatile": vol_before,
                             "before_files": before_files, "before_dirs": before_dirs,
                             "after_files": res.files, "after_dirs": res.dirs, "owned": dict(owned),
                             "owned_after": owned_after,
@@ -1256,7 +1263,7 @@ def e3_oracle_c07(rec):
         elif f"file:{p}" in unneeded_out:
             step = unneeded_out[f"file:{p}"]
             pst, _ = _gstate(rec["prev_graph"], p)
-            if st == "PLANNED" and pst == "VOLATILE":
+            if st == "PLANNED" and (pst == "VOLATILE" or p in rec.get("written_as_volatile", ())):
                 # the path was a VOLATILE output when the file was written and was declared again as a regular output
                 # since: File.initialize_row(PLANNED) over a VOLATILE row gives PLANNED, which nothing queues
                 out.append(("oracle:e3:unneeded-optional-output-kept:was-volatile-now-planned",
